@@ -115,6 +115,10 @@ def run_items(items, nproc=None):
     """Run items in a fork pool; returns list of result dicts (same order)."""
     global _ITEMS
     _ITEMS = items
+    if os.environ.get('VERIF_LIST') == '1':      # debugging aid: list the work items and stop (nothing is decided)
+        for it in items:
+            print(it.desc)
+        os._exit(4)
     nproc = nproc or min(16, os.cpu_count() or 4, max(1, len(items)))
     if os.environ.get('VERIF_SERIAL') == '1' or len(items) == 1:
         return [_run_item(it) for it in items]
